@@ -90,6 +90,8 @@ impl Engine for PartEngine {
             ("rcv", 5) => receiver_blocks(n[0], n[1] != 0, n[2], n[3], n[4], o),
             ("rq", 3) => raptor_reconstruct(true, n[0], n[1], n[2], o),
             ("rp", 3) => raptor_reconstruct(false, n[0], n[1], n[2], o),
+            ("rqc", 4) => raptor_reconstruct_c(true, n[0], n[1], n[2], Some(n[3]), o),
+            ("rpc", 4) => raptor_reconstruct_c(false, n[0], n[1], n[2], Some(n[3]), o),
             _ => "bad-op".to_string(),
         }
     }
@@ -314,6 +316,11 @@ fn receiver_blocks(scheme: u64, inband: bool, b: u64, l: u64, e: u64, o: &mut Or
 }
 
 fn mk_sender(oti: &flute::core::Oti, l: u64) -> Result<flute::sender::Sender, String> {
+    mk_sender_cenc(oti, l, false).map(|x| x.0)
+}
+
+/// gzip-coded variant: returns the sender and the TRANSFER length (length of the encoded object) read from the ObjectDesc
+fn mk_sender_cenc(oti: &flute::core::Oti, l: u64, gzip: bool) -> Result<(flute::sender::Sender, u64), String> {
     use flute::sender::*;
     let cfg = Config { toi_initial_value: Some(1), ..Default::default() };
     let ep = flute::core::UDPEndpoint::new(None, "224.0.0.1".to_string(), 3400);
@@ -321,7 +328,11 @@ fn mk_sender(oti: &flute::core::Oti, l: u64) -> Result<flute::sender::Sender, St
     // block under Raptor/RS is C08's business, not C07's); the object carries the OTI under test as a per-object override
     let fdt_oti = flute::core::Oti::new_no_code(1400, 64);
     let mut sender = Sender::new(ep, 1, &fdt_oti, &cfg);
-    let tc = TransferConfig::builder().oti(oti.clone()).build();
+    let tc = if gzip {
+        TransferConfig::builder().oti(oti.clone()).cenc(flute::core::lct::Cenc::Gzip).inband_cenc(true).build()
+    } else {
+        TransferConfig::builder().oti(oti.clone()).build()
+    };
     let obj = ObjectDesc::create_from_buffer(
         content(l),
         "application/octet-stream",
@@ -330,9 +341,19 @@ fn mk_sender(oti: &flute::core::Oti, l: u64) -> Result<flute::sender::Sender, St
         tc,
     )
     .map_err(|e| format!("{:?}", e))?;
+    let tl = obj.transfer_length;
     sender.add_object(0, obj).map_err(|e| format!("{:?}", e))?;
     sender.publish(std::time::UNIX_EPOCH + std::time::Duration::from_secs(1_700_000_000)).map_err(|e| format!("{:?}", e))?;
-    Ok(sender)
+    Ok((sender, tl))
+}
+
+/// transfer length of the gzip-coded synthetic object of `l` bytes (what the generator passes to the model as an input)
+fn gzip_transfer_length(l: u64) -> u64 {
+    use flute::sender::*;
+    let tc = TransferConfig::builder().cenc(flute::core::lct::Cenc::Gzip).build();
+    ObjectDesc::create_from_buffer(content(l), "application/octet-stream", &url::Url::parse("file:///x").unwrap(), false, tc)
+        .map(|o| o.transfer_length)
+        .unwrap_or(u64::MAX)
 }
 
 /// C07 (5a): the (SBN, number of source packets, bytes) structure of the packets a REAL sender emits for an
@@ -405,6 +426,11 @@ fn sender_blocks(b: u64, l: u64, e: u64, o: &mut Oracle) -> String {
 /// C07 (6): B' reconstructed by the receiver-side FTI parser from the RaptorQ / Raptor in-band FTI that a REAL
 /// sender emits; observation `ok <B'> <Z>`; oracle: partition(B', L, E) == partition(B, L, E).
 fn raptor_reconstruct(rq: bool, b: u64, l: u64, e: u64, o: &mut Oracle) -> String {
+    raptor_reconstruct_c(rq, b, l, e, None, o)
+}
+
+/// `tl = Some(transfer length)`: the object is gzip-coded; everything (partition, Z, B') is about the TRANSFER length
+fn raptor_reconstruct_c(rq: bool, b: u64, l: u64, e: u64, tl: Option<u64>, o: &mut Oracle) -> String {
     let r = guarded(move || -> Result<(u64, u64), String> {
         let oti = if rq {
             flute::core::Oti::new_raptorq(e as u16, b as u16, 1, 1, 4)
@@ -412,7 +438,12 @@ fn raptor_reconstruct(rq: bool, b: u64, l: u64, e: u64, o: &mut Oracle) -> Strin
             flute::core::Oti::new_raptor(e as u16, b as u16, 1, 1, 4)
         }
         .map_err(|e| format!("{:?}", e))?;
-        let mut sender = mk_sender(&oti, l)?;
+        let (mut sender, real_tl) = mk_sender_cenc(&oti, l, tl.is_some())?;
+        if let Some(t) = tl {
+            if t != real_tl {
+                return Err(format!("harness: transfer length {} announced to the model, ObjectDesc says {}", t, real_tl));
+            }
+        }
         let now = std::time::UNIX_EPOCH + std::time::Duration::from_secs(1_700_000_000);
         for _ in 0..100000 {
             let data = match sender.read(now) {
@@ -437,8 +468,9 @@ fn raptor_reconstruct(rq: bool, b: u64, l: u64, e: u64, o: &mut Oracle) -> Strin
     });
     match r {
         Ok(Ok((b2, z))) => {
-            let want = rfc(b as u128, l as u128, e as u128);
-            let got = rfc(b2 as u128, l as u128, e as u128);
+            let lt = tl.unwrap_or(l);
+            let want = rfc(b as u128, lt as u128, e as u128);
+            let got = rfc(b2 as u128, lt as u128, e as u128);
             if want != got || z as u128 != want.3 {
                 o.fail("raptor-reconstruct", &format!("B'={} Z={} gives partition {:?}, sender's is {:?}", b2, z, got, want));
             }
@@ -697,6 +729,22 @@ pub fn run(ctx: &mut Ctx, eng: &mut dyn Engine) {
                 ctx.evaluations += 1;
                 ctx.nontrivial(&format!("zfield {} {} {} {}", rq, b, l, e));
                 ctx.count(if obs.starts_with("ok") { "z-field-boundary-ok" } else { "z-field-boundary-refused" });
+            }
+        }
+    }
+    // content-encoded objects (gzip): the partition, Z and B' are about the TRANSFER length (length of the encoded object),
+    // not the content length - the synthetic content is periodic, so the two differ by orders of magnitude
+    for rq in [true, false] {
+        for (b, e) in [(4u64, 4u64), (8, 16), (64, 64), (10, 100)] {
+            for l in [1u64, 50, 300, 1000, 5000, 20000, 60000] {
+                let tl = gzip_transfer_length(l);
+                let obs = ctx.step(eng, &format!("part {} {} {} {} {}", if rq { "rqc" } else { "rpc" }, b, l, e, tl));
+                ctx.evaluations += 1;
+                let (qc, qt) = (rfc(b as u128, l as u128, e as u128), rfc(b as u128, tl as u128, e as u128));
+                if qc.3 != qt.3 {
+                    ctx.nontrivial(&format!("raptor-cenc {} {} {} {}", rq, b, l, e));
+                }
+                ctx.count(if !obs.starts_with("ok") { "raptor-cenc-refused" } else if qc.3 != qt.3 { "raptor-cenc-ok-Z-differs-from-content-Z" } else { "raptor-cenc-ok" });
             }
         }
     }
